@@ -35,6 +35,17 @@ def run(ctx):
                   bad_msg=f"{ch!r} is not percent-encoded in path arguments")
 
     # ---- make_endpoint_url ---------------------------------------------------------------------------------
+    ctx.rule("C16.attr_char", "rfc8187::ATTR_CHAR leaves unencoded exactly RFC 8187's attr-char (ALPHA / DIGIT / ! # $ & + - . ^ _ ` | ~): in particular "
+                              "the apostrophe that delimits charset'lang'value, '*' and '%' are always percent-encoded in `filename*=` values")
+    AC = "ruma_common::http_headers::rfc8187::ATTR_CHAR"
+    am = w.value(AC)["fields"]["mask"]
+    literal = {b for b in range(128) if not (am[b // 32] >> (b % 32) & 1)}
+    want_literal = {b for b in range(128) if chr(b).isalnum()} | {ord(c) for c in "!#$&+-.^_`|~"}
+    ctx.check(literal == want_literal, "C16.attr_char", "C16.attr_char:set", w.where_value(AC),
+              bad_msg=f"left unencoded although not attr-char: {[chr(b) for b in sorted(literal - want_literal)]}; encoded although attr-char: "
+                      f"{[chr(b) for b in sorted(want_literal - literal)]} (a literal `'` inside the value breaks the charset'lang'value split of the decoder)")
+    # (an AsciiSet covers 0..=127; percent_encoding always encodes non-ASCII bytes)
+
     ctx.rule("C16.url", "make_endpoint_url: a segment starting with ':' consumes the next path argument and writes `/` + utf8_percent_encode(arg, PATH set); other segments are copied; the query is appended after '?'")
     f = w.fn(API + "metadata::Metadata::make_endpoint_url")
     dex = D.Dex(w.lookup, adt_discr=w.adt_discr, ctors=w.ctors, unroll=1, effects=lambda n: True, max_paths=200000)
